@@ -396,26 +396,32 @@ def check_transform(pr, ag):
             a, b = (int(x) for x in rng.permutation(L.nd)[:2])
             ref = None if rng.random() < 0.4 else tuple(centre + rng.uniform(-1, 1, L.nd) * size * float(rng.choice([1.0, 30.0])))
             steps.append(("rotate90", {"ax1": L.dims[a], "ax2": L.dims[b], "k": int(rng.integers(-5, 6)), "reference_point": ref, "_ab": (a, b)}))
-    for op, kw in steps:
-        ab = kw.pop("_ab", None)
-        kw = {k: v for k, v in kw.items() if v is not None}
-        # expected index boxes and counts
-        n_new, boxes, units = L.n.copy(), [(lo.copy(), hi.copy()) for lo, hi in L.boxes], list(L.units)
-        refscale = float(np.max(np.abs(np.array(kw.get("reference_point", 0.0))))) if "reference_point" in kw else 0.0
+    def expect(n, boxes, units, scale, op, kw, ab):
+        """index boxes, counts, units and coordinate scale expected after one step"""
+        n, units = np.array(n).copy(), list(units)
+        ref = float(np.max(np.abs(np.array(kw["reference_point"])))) if "reference_point" in kw else 0.0
         neg = False
         if op == "scale":
             fac = np.broadcast_to(np.array(kw["factor"], float), (L.nd,))
             neg = bool(np.any(fac < 0))
-            boxes = [(np.where(fac < 0, L.n - hi, lo), np.where(fac < 0, L.n - lo, hi)) for lo, hi in boxes]
-            refscale = max(refscale, float(np.max(np.abs(fac))) * (float(np.max(L.scale)) + refscale))
+            boxes = [(np.where(fac < 0, n - hi, lo), np.where(fac < 0, n - lo, hi)) for lo, hi in boxes]
+            scale = max(scale, ref, float(np.max(np.abs(fac))) * (scale + ref) + ref)
         elif op == "translate":
-            refscale = float(np.max(np.abs(kw["vector"])))
+            scale = scale + float(np.max(np.abs(kw["vector"])))
         else:
             a, b = ab
-            boxes = [rot_box_idx(lo, hi, L.n, a, b, kw["k"])[:2] for lo, hi in boxes]
-            n_new = rot_box_idx(L.n * 0, L.n, L.n, a, b, kw["k"])[2]
+            boxes, n = [rot_box_idx(lo, hi, n, a, b, kw["k"])[:2] for lo, hi in boxes], rot_box_idx(n * 0, n, n, a, b, kw["k"])[2]
             if kw["k"] % 2 == 1:
                 units[a], units[b] = units[b], units[a]
+            scale = 2 * (scale + ref)
+        return n, boxes, units, scale, neg
+
+    clean = []
+    for op, kw in steps:
+        ab = kw.pop("_ab", None)
+        kw = {k: v for k, v in kw.items() if v is not None}
+        clean.append((op, kw, ab))
+        n_new, boxes, units, refscale, neg = expect(L.n, [(lo.copy(), hi.copy()) for lo, hi in L.boxes], L.units, float(np.max(L.scale)), op, kw, ab)
         for inplace in (False, True):
             m = L.mesh()
             r, res = raises(Exception, lambda: getattr(m, op)(inplace=inplace, **kw))
@@ -431,6 +437,23 @@ def check_transform(pr, ag):
             oku = tuple(res.region.units) == tuple(units) and tuple(res.region.dims) == L.dims
             ag.req(ok and okn and oku, "C14.transform", "subregions after %s: %s" % (op, why or ("n %r != %r" % (res.n.tolist(), n_new.tolist()) if not okn else "units/dims of the mesh wrong")),
                    sig=sig, op=op, inplace=inplace, args=repr(kw)[:200], units=res.region.units, want_units=units)
+    # ---- chains of four steps in the copying form (reference points are re-used as absolute points)
+    for _ in range(2):
+        m = L.mesh()
+        n_cur, boxes, units, sc = L.n, [(lo.copy(), hi.copy()) for lo, hi in L.boxes], L.units, float(np.max(L.scale))
+        done = []
+        for j in rng.permutation(len(clean))[:4]:
+            op, kw, ab = clean[int(j)]
+            done.append((op, repr(kw)[:120]))
+            n_cur, boxes, units, sc, _ = expect(n_cur, boxes, units, sc, op, kw, ab)
+            r, m = raises(Exception, lambda: getattr(m, op)(**kw))
+            csig = "aligned-rejected-absolute-tolerance-large-coordinates" if (r and isinstance(m, ValueError) and "not aligned" in str(m) and 8 * np.spacing(sc) >= 1e-12) else None
+            if not ag.req(not r, "C14.transform", "transformation in a chain raised", sig=csig, chain=done, error=repr(m)[:200]):
+                break
+            ok, why = stored_ok(m, L.names, boxes, sc, 2 * ULPS * len(done))
+            if not ag.req(ok and np.array_equal(m.n, n_cur) and tuple(m.region.units) == tuple(units), "C14.transform", "subregions after a chain of transformations: " + why,
+                          chain=done, n=m.n, want_n=n_cur, units=m.region.units, want_units=units):
+                break
 
 
 # ------------------------------------------------------------------------------------------ selections
